@@ -69,11 +69,12 @@ def source_fingerprint():
     return h.hexdigest()[:16], base
 
 
-def write_replay(prop, harness, viol):
+def write_replay(prop, harness, viol, tier="quick", seed=0):
     os.makedirs(os.path.join(ROOT, "replays"), exist_ok=True)
     body = {"property": prop, "harness": harness, "clause": viol["clause"], "key": viol.get("key"),
             "case": viol["case"], "detail": viol.get("detail"), "choices": viol.get("choices"),
-            "labels": viol.get("labels")}
+            "labels": viol.get("labels"), "tier": tier, "seed": seed,
+            "needs_fresh_process_confirmation": bool(viol.get("needs_fresh_process_confirmation"))}
     blob = json.dumps(body, sort_keys=True, default=repr)
     hsh = hashlib.sha256(blob.encode()).hexdigest()[:12]
     path = os.path.join(ROOT, "replays", "%s-%s.json" % (prop, hsh))
@@ -168,11 +169,20 @@ def run_check(prop, tier, seed):
         print("KNOWN-FINDING: property=%s %s: %s (%d recorded case(s) in this run)" % (prop, kid, k["text"], cnt))
     seen = set()
     replay_paths = []
+    unconfirmed = []
     for v in new:
-        path = write_replay(prop, v.get("harness", ""), v)
+        path = write_replay(prop, v.get("harness", ""), v, tier, seed)
         if path in seen:
             continue
         seen.add(path)
+        if v.get("needs_fresh_process_confirmation"):
+            # verdict changed on an immediate in-process re-run: confirm in a fresh process or give no verdict
+            import subprocess
+            rr = subprocess.run([sys.executable, "-m", "mc.cli", prop, "--replay", path], cwd=ROOT, capture_output=True, text=True,
+                                env=dict(os.environ))
+            if rr.returncode != 1:
+                unconfirmed.append(path)
+                continue
         replay_paths.append(path)
         print("VIOLATION property=%s replay=%s" % (prop, path))
         print("  clause=%s key=%s detail=%s" % (v["clause"], json.dumps(v.get("key"), default=repr)[:300],
@@ -207,7 +217,7 @@ def run_check(prop, tier, seed):
     }
     ev = {"property_id": prop, "tier": tier, "seed": seed, "level": "model_checking", "coverage": cov,
           "assumptions": list(getattr(mod, "ASSUMPTIONS", [])), "wall_s": round(wall, 2),
-          "violations": len(new) + unclassified}
+          "violations": len(replay_paths) + unclassified}
     os.makedirs(os.path.join(ROOT, "evidence"), exist_ok=True)
     with open(os.path.join(ROOT, "evidence", "%s.json" % prop), "w") as f:
         json.dump(ev, f, indent=1, default=repr)
@@ -222,8 +232,12 @@ def run_check(prop, tier, seed):
             ph["wall_s"]))
     if unclassified:
         print("VIOLATION property=%s replay=%s" % (prop, "(more distinct violations than the recording cap; see evidence)"))
-    if new or unclassified:
+    if replay_paths or unclassified:
         return 1
+    if unconfirmed:
+        print("HARNESS-ERROR property=%s: %d observation(s) changed verdict on an immediate re-run and did not reproduce in a "
+              "fresh process (no verdict): %s" % (prop, len(unconfirmed), unconfirmed[:3]))
+        return 2
     return 0
 
 
@@ -233,6 +247,13 @@ def run_replay(prop, path):
         rec = json.load(f)
     fails = mod.replay(engine.unjson(rec["case"]))
     fails = [f for f in fails if f["clause"] == rec["clause"]] or fails
+    if not fails and rec.get("choices") is not None and rec.get("harness"):
+        # the case alone passes in a fresh process: re-execute the whole recorded execution (all cases of
+        # that leaf, in order) - results that depend on earlier calls of the same execution reproduce this way
+        hs = [h for h in mod.harnesses(rec.get("tier", "quick"), rec.get("seed", 0)) if h["name"] == rec["harness"] and "body" in h]
+        if hs:
+            ctx = engine._run(hs[0]["body"], list(rec["choices"]), engine.Stats(), hs[0].get("bound"))
+            fails = [f for f in ctx.failures if f["clause"] == rec["clause"]]
     if fails:
         print("VIOLATION property=%s replay=%s" % (prop, path))
         for fl in fails[:5]:
